@@ -29,7 +29,11 @@ def evaluate(t, env, tables):
         if t[1] == "zext":
             return v
         if t[1] == "sext":
-            raise AnalysisBroken("termeval: sext needs the source width")
+            inner = t[3]
+            sb = bits_of(inner[2]) if isinstance(inner, tuple) and inner[0] in ("op", "cast") else 32
+            if v >> (sb - 1):
+                v = (v - (1 << sb)) & mask(bits_of(t[2]))
+            return v
         raise AnalysisBroken("termeval: cast %s" % t[1])
     if k == "op":
         op, ty = t[1], t[2]
